@@ -205,6 +205,7 @@ func c02Rollback(r *core.Run) {
 	}
 	r.Check(okDisc, "R02.1", "WritePacket: consumed packets discarded after each parsed package", fn.Pos(), "DiscardUntilCurrentPosition on the success edge", "consumed packets are not discarded after a successful parse")
 	r.Check(len(callsTo(fn, pos)) >= 1, "R02.1", "WritePacket: position saved", fn.Pos(), "Position() called", "the read position is never saved")
+	onePerAttempt(r, "R02.1")
 }
 
 func c02AddPacket(r *core.Run) {
@@ -278,4 +279,25 @@ func c02AddPacket(r *core.Run) {
 		}
 	}
 	r.Check(okEOM, "R02.4", "AddPacket: recvEOM only from the EOM bit", fn.Pos(), "Status&TDS_BUFSTAT_EOM == TDS_BUFSTAT_EOM → recvEOM = true", whyEOM)
+}
+
+// onePerAttempt: tryParsePackage handles at most one package per invocation
+// (no self-call, no loop around the parse), so that WritePacket's discard and
+// its next saved position follow every handled package. Otherwise a handled
+// special package shares its rollback position with the package after it and
+// is parsed (and reported to hooks) again when that package is fragmented.
+func onePerAttempt(r *core.Run, rule string) {
+	p := r.Prog
+	tpp := p.Func("tds", "Channel", "tryParsePackage")
+	lp := p.Func("tds", "", "LookupPackage")
+	ok, why := true, ""
+	if len(callsTo(tpp, tpp)) > 0 {
+		ok, why = false, "tryParsePackage calls itself: a package it has already handled (e.g. an ENVCHANGE reported to hooks) is not discarded before the next one is attempted, and is parsed again when the next one turns out to be incomplete"
+	}
+	for _, c := range callsTo(tpp, lp) {
+		if _, loop := core.InnermostLoop(c.Block()); loop != nil {
+			ok, why = false, "tryParsePackage parses packages in a loop: handled packages are not discarded one by one"
+		}
+	}
+	r.Check(ok, rule, "tryParsePackage: one package per attempt", tpp.Pos(), "no self-call, no loop around LookupPackage", why)
 }
